@@ -9,7 +9,7 @@ EXTENDS MC_Loader
 Kind == [LdIn |-> "loaded.in", LdGet |-> "loaded.get", LgIn |-> "loading.in", LgGet |-> "loading.get",
          Join |-> "join", Joined |-> "joined", LgPop |-> "loading.pop", Pub |-> "loaded.set",
          DfLdIn |-> "loaded.in", DfLgIn |-> "loading.in", DfSet |-> "loading.set", DfGet |-> "loading.get",
-         DfStart |-> "start", MBegin |-> "begin", TBegin |-> "begin", RfClear |-> "loaded.clear", MTouch |-> "touch",
+         DfStart |-> "start", MBegin |-> "begin", TBegin |-> "begin", RfClear |-> "loaded.clear", MTouch |-> "touch", MAppear |-> "appear",
          TLdIn |-> "tloaded.in", TLdGet |-> "tloaded.get", TLgIn |-> "tloading.in", TLgGet |-> "tloading.get", TJoin |-> "join", TJoined |-> "joined",
          TLgPop |-> "tloading.pop", TPub |-> "tloaded.set", TDfLdIn |-> "tloaded.in", TDfLgIn |-> "tloading.in", TDfSet |-> "tloading.set",
          TDfGet |-> "tloading.get", TDfStart |-> "start"]
@@ -18,7 +18,7 @@ IsLocal(p) == pc[p] \notin DOMAIN Kind /\ pc[p] \notin {"Done", "HDead", "DDead"
 \* the argument the model's process would use at its current label
 ArgU(p) == CASE pc[p] \in {"LdIn", "LdGet", "LgIn", "LgGet", "LgPop"} -> u[p]
              [] pc[p] = "Pub" -> v[p]
-             [] pc[p] = "MTouch" -> Prog[k[p]][2]
+             [] pc[p] \in {"MTouch", "MAppear"} -> Prog[k[p]][2]
              [] pc[p] \in {"TLdIn", "TLdGet", "TLgIn", "TLgGet", "TLgPop"} -> tu[p]
              [] pc[p] = "TPub" -> tv[p]
              [] pc[p] \in {"TDfLdIn", "TDfLgIn", "TDfSet", "TDfGet"} -> tw[p]
